@@ -153,3 +153,65 @@ def partition_of(lab: np.ndarray):
     for c in np.argwhere(lab != 0):
         d.setdefault(int(lab[tuple(c)]), set()).add(tuple(c))
     return d
+
+
+def spec_pipeline(pred, ref, input_type, backend_eff, matcher, decision, metrics):
+    """The documented definitions applied directly to the voxel sets (independent of the library and
+    of the Lean model).  Returns None when the documented procedure does not determine the answer
+    uniquely (competing eligible candidates with equal score, or a float-fragile comparison)."""
+    from fractions import Fraction
+
+    def inst(a):
+        if input_type != "SEMANTIC":
+            return {l: (a == l) for l in np.unique(a).tolist() if l != 0}
+        full = backend_eff == "cc3d"
+        out = {}
+        for k, comp in enumerate(components(a, full=full, label_aware=full)):
+            m = np.zeros(a.shape, bool)
+            for c in comp:
+                m[c] = True
+            out[k + 1] = m
+        return out
+    P, R = inst(pred), inst(ref)
+    n_pred, n_ref = len(P), len(R)
+    pairs = []
+    if input_type == "MATCHED":
+        pairs = [(l, l) for l in sorted(P) if l in R]
+    elif P and R:
+        metric, thr, m2o = matcher
+        t = Fraction(*thr) if metric != "ASSD" else thr[0] / thr[1]
+        cands = []
+        for p, pm in P.items():
+            for r, rm in R.items():
+                if (pm & rm).any():
+                    s = mask_score(metric, rm, pm)
+                    if metric == "ASSD" and near(s, t):
+                        return None
+                    if beats(metric, s, t):
+                        cands.append((s, p, r))
+        for a, b in itertools.combinations(cands, 2):
+            if (a[1] == b[1] or a[2] == b[2]) and (a[0] == b[0] or (metric == "ASSD" and near(a[0], b[0]))):
+                return None
+        cands.sort(key=lambda c: c[0], reverse=not DECREASING[metric])
+        up, ur = set(), set()
+        for s, p, r in cands:
+            if p in up or r in ur:
+                continue
+            up.add(p)
+            ur.add(r)
+            pairs.append((p, r))
+    lists = {m: [] for m in metrics}
+    tp = 0
+    for p, r in pairs:
+        vals = {m: mask_score(m, R[r], P[p]) for m in metrics}
+        if decision is not None:
+            dm, dt = decision
+            t = Fraction(*dt) if dm != "ASSD" else dt[0] / dt[1]
+            if dm == "ASSD" and near(vals[dm], t):
+                return None
+            if not beats(dm, vals[dm], t):
+                continue
+        tp += 1
+        for m in metrics:
+            lists[m].append(vals[m])
+    return {"n_pred": n_pred, "n_ref": n_ref, "tp": tp, "fp": n_pred - tp, "fn": n_ref - tp, "lists": lists}
